@@ -1,5 +1,7 @@
 package main
 
+import "golang.org/x/tools/go/ssa"
+
 func init() {
 	register(&PropertyDef{
 		ID:    "C12",
@@ -16,6 +18,14 @@ func init() {
 		Assumptions: []string{"all goroutines reach the forest only through the package's exported functions and methods", "a single MapPollard instance is involved in each call (no function handles two instances)"},
 		Rules: []RuleDef{
 			{ID: "R12", Statement: "lockset discipline for the struct carrying the RWMutex", Run: runLockset},
+			{ID: "R12g", Statement: "one critical section per exported method, callees included", Run: func(p *Program, r *Report) {
+				r.Rule("R12g", "ATOMIC-QUERY: every exported method of the map forest enters at most one critical section on any path, counting the sections of the functions it calls (a query assembled from separately locked getters can mix two block states)")
+				acq := transitiveAcquirers(p)
+				checkAtomicQuery(p, r, "R12g", func(f *ssa.Function) bool { return acq[f] }, map[string]string{
+					"(*MapPollard).String":              "debug printing through the generic ToString helpers composes several locked getters; it is not one of the queries the property lists",
+					"(*MapPollard).AllSubTreesToString": "debug printing through the generic ToString helpers composes several locked getters; it is not one of the queries the property lists",
+				})
+			}},
 		},
 	})
 }
